@@ -200,6 +200,7 @@ fn run_one<const N: usize, P: Pad>(
 }
 
 pub fn faults<const N: usize, P: Pad>(ctx: &mut Ctx) {
+    ctx.panic_props = vec!["C11", "C05", "C06", "C01"];
     let thorough = ctx.args.thorough;
     let kinds: Vec<FpKind> = match ctx.args.get("kinds") {
         Some("drop") => vec![FpKind::Drop],
